@@ -58,6 +58,8 @@ def main() -> int:
         from .checks.apilib import api_pass, alias_pass
         api_pass(run, pkg)
         alias_pass(run, pkg)
+        from .checks.statelib import state_pass
+        state_pass(run, pkg, everything=(pid == "C18"))
         if tier == "thorough" and not a.replay and not os.environ.get("VERIF_NO_SELFTEST"):
             selftest_stage(run, pid)
     except AnalysisError as e:
